@@ -96,7 +96,7 @@ def projection(obs, A, norm):
 def run(tier, seed):
     return st.run_structural(
         "C05", tier, seed, "ZeepVerif.Props.C05", "ZeepVerif/Audit/C05.lean",
-        [("genwsdl", 250, 6000), ("genwsdlcollide", 50, 1000)], oracle, projection, CHECKER, extra_props=[("ZeepVerif.Props.C05Ya", "ZeepVerif/Audit/C05Ya.lean")],
+        [("genwsdl", 250, 6000), ("genwsdlcollide", 50, 1000)], oracle, projection, CHECKER, extra_props=[("ZeepVerif.Props.C05Ya", "ZeepVerif/Audit/C05Ya.lean"), ("ZeepVerif.Props.C05All", "ZeepVerif/Audit/C05All.lean")],
         note_assumptions=["static half of C05 (which envelope types, which element under which QName, which methods, which address); the wire half "
                           "(serialised request, deserialised response, URL on a loopback listener) is exercised on compiled clients by the C03/C04/C16 checks",
                           "reqwest::Url normalisation of the address is an oracle table shipped with the generator's URL pool"],
